@@ -229,11 +229,54 @@ def shard_merge_budget(ctx):
     return out
 
 
+def runner_comparator(ctx):
+    """each shard sorts its segment rows with this function before the k-way merge, which orders by ScalarValue::compare:
+    the two have to be the same order or the merge is not a merge of sorted inputs"""
+    b = Builder(ctx, "read-segment_query_runner-compare_scalar_values.", "segment_query_runner::compare_scalar_values", {})
+    E, q = b.E, ctx.q
+    r = b.mk("B-6", "the segment runner's row comparator returns on every path either the comparison of the two unsigned views "
+                    "(both as_u64 answered Some) or exactly ScalarValue::compare(a, b) - the order the merge heap and the memtable "
+                    "source use (Kani A-1..A-3 decide that order itself); it takes no ordering decision of its own, e.g. about nulls")
+    out = [b.results["B-6"]]
+    if not r:
+        return out
+    if not E.returns:
+        r.status = "inconclusive"
+        r.notes.append("no return")
+        return out
+    r.nontrivial = True
+    for (_n, reach, env) in E.returns:
+        res, model = q.check(reach, domain=E.domain)
+        r.queries += 1
+        if res != z3.sat:
+            continue
+        v = env.get(0)
+        alts = v.alts if isinstance(v, sym.Phi) else [(z3.BoolVal(True), v)]
+        for (c, x) in alts:
+            res, model = q.check(reach, c, domain=E.domain)
+            r.queries += 1
+            if res != z3.sat:
+                continue
+            d = sym.describe(x)
+            src = " ".join(E.trace(x, env, depth=6) | {d})
+            ok_cmp = re.search(r"ScalarValue::compare#\d+", d) is not None
+            ok_u64 = re.search(r"Ord::cmp#\d+", d) is not None and "as_u64" in src
+            if not (ok_cmp or ok_u64):
+                r.status = "violated"
+                r.witness = {"what": f"the comparator returns `{d[:80]}` on some path - an ordering decision of its own instead of ScalarValue::compare: "
+                                     "segment rows are sorted by another order than the one the merge assumes",
+                             "span": "src/engine/core/read/segment_query_runner.rs", "call": "compare_scalar_values",
+                             "path": E.path_of_model(model)[-6:], "model": {}}
+                return out
+    return out
+
+
 def obligations(ctx):
     out = pick(writerspec.accept_row(ctx), [("B-1", "window"), ("B-1b", "dedup")])
     out += merger_window(ctx)
     out += source_limits(ctx)
     out += shard_merge_budget(ctx)
+    out += runner_comparator(ctx)
     b = Builder(ctx, "handlers-query-handler-{impl#0}-handle-{closure#0}.", "QueryCommandHandler::handle", {})
     E, q = b.E, ctx.q
     r = b.mk("B-2", "QueryCommandHandler::handle: the execution pipeline is built only if the query does not combine an "
